@@ -1505,7 +1505,9 @@ class FlowIR(object):
         # whole reference: text that is the tail of a longer producer name, stage prefix or path (e.g. `A:ref`
         # inside `BA:ref`, `stage0.A:ref`, `data/A:ref`) is something else
         ordered = sorted(translation_map, key=lambda name: len(name), reverse=True)
-        expression = re.compile(r"%s(%s)(?!\w)((?:/[\w.*]+)+,*)?" % (
+        # VV: file names may also contain `-`, `+`, `~`, `@` (e.g. `out-1.txt`); shell punctuation, quotes, brackets,
+        # commas and whitespace end the path
+        expression = re.compile(r"%s(%s)(?!\w)((?:/[\w.*+~@-]+)+,*)?" % (
             cls.ReferenceLeftBoundary, '|'.join([re.escape(ref) for ref in ordered])))
 
         def expand(m):
